@@ -16,7 +16,7 @@ N_KANI = 'trusted: Kani 0.68/CBMC 6.11, its models of primitive any(); harness c
 ENGINES = [
     {'name': 'E1-kani', 'path': 'kani/', 'serves_properties': ['C07', 'C11'],
      'kind_free_text': 'Kani proof harnesses over the real liquid-core code for scalar-level units (symbolic i64/f64/bool inputs, all bit patterns), unwinding assertions on, cover! vacuity witnesses'},
-    {'name': 'E2-mirsym', 'path': 'mirsym/', 'serves_properties': ['C04', 'C05', 'C10', 'C15', 'C18'],
+    {'name': 'E2-mirsym', 'path': 'mirsym/', 'serves_properties': ['C04', 'C05', 'C06', 'C10', 'C15', 'C18'],
      'kind_free_text': 'MIR symbolic executor (Python + z3): rustc --emit=mir of /repo working tree on every run, path enumeration with symbolic leaves, listed library models, native replay of counterexamples'},
 ]
 
@@ -35,6 +35,8 @@ CHECKS = {
             'text': 'Kani proves, for every pair of i64/f64 (all bit patterns incl. NaN, +-0, infinities)/bool scalars: == symmetric, != its negation, </> and <=/>= duals, partial_cmp antisymmetric and Equal exactly when ==, <= is < or ==, equal values never strictly ordered, reflexivity except NaN, int/float equality for |x|<=2^53, and that Value/ValueCow comparisons delegate to the same relation; nil symmetric.'},
     'C07': {'engine': 'E1-kani', 'technique': T_KANI, 'note': N_KANI,
             'text': 'Kani proves <Vec<i64> as ArrayView>::{get, contains_key, size, first, last} positional for len<=5 and EVERY i64 index (negatives from the end, everything else absent).'},
+    'C06': {'engine': 'E2-mirsym', 'technique': T_MIR, 'note': N_MIR + '; token stream, operand expressions and branch bodies are abstract stubs',
+            'text': 'Real MIR of Conditional::render_to (one branch, mode flag), Condition::evaluate (left-to-right short-circuit, error propagation, all trees up to 4 atoms), if_block::parse_condition over abstract token streams (and tighter than or, left association, operator mapping, malformed streams are errors), BinaryCondition::evaluate (operator table against z3 relations for all i64xi64 and i64xf64), ExistenceCondition::evaluate (truthiness per kind, undefined = nil), Case::render_to (first matching arm).'},
 }
 
 NOT_BUILT = 'not claimed yet: obligations for this property are not built in this revision (see DESIGN.md §4)'
@@ -42,5 +44,5 @@ NOT_APPLICABLE = {
     'C09': 'quantifies over histories of whole parse+render calls; needs the pest parser and HashMap-backed registers inside the solver (measured out of reach) or a frame condition that is a typing fact, not a solver query (DESIGN.md §5)',
     'C20': 'quantifies over thread schedules; Kani does not support concurrency and the MIR executor has no interleaving semantics (DESIGN.md §5)',
 }
-for _p in ['C01', 'C02', 'C03', 'C06', 'C08', 'C12', 'C13', 'C14', 'C16', 'C17', 'C19']:
+for _p in ['C01', 'C02', 'C03', 'C08', 'C12', 'C13', 'C14', 'C16', 'C17', 'C19']:
     NOT_APPLICABLE.setdefault(_p, NOT_BUILT)
